@@ -139,6 +139,9 @@ func (w *World) checkGates() {
 		if n.byz || n.lh == nil {
 			continue
 		}
+		if n.mainParked != nil || len(n.pendingSyncs) > 0 {
+			continue // the main loop has not finished (or not yet seen) what the model already counts as handed over
+		}
 		for _, g := range n.gates {
 			if g.ignoresCtx {
 				continue
@@ -175,6 +178,10 @@ func (w *World) checkSyncs() {
 	}
 	for _, n := range w.nodes {
 		if n.byz || !n.alive || n.lh == nil || n.shuttingDown {
+			continue
+		}
+		w.pollPendingSyncs(n)
+		if n.mainParked != nil || len(n.pendingSyncs) > 0 {
 			continue
 		}
 		// "even while the worker is inside a long SPI call": once UpdateState(b) has returned nil, no SPI call of a
